@@ -3,7 +3,7 @@
 P="$1"; C="$2"; T="${3:-quick}"
 git -C /repo apply "$P" || { echo "APPLY FAILED"; exit 9; }
 cd /verif && ./check "$C" --tier "$T" > /tmp/try_mutant.out 2>&1; rc=$?
-git -C /repo checkout -- .
+git -C /repo checkout -- .; git -C /verif checkout -- evidence 2>/dev/null
 grep -c "^VIOLATION" /tmp/try_mutant.out | sed "s/^/violations: /"
 grep "^VIOLATION" /tmp/try_mutant.out | head -3 | cut -c1-220
 tail -1 /tmp/try_mutant.out
